@@ -31,17 +31,41 @@
 (*               Judged like "Misbehave" once the write has committed.      *)
 (*   "Unban"     the ban of IP i is lifted in the store                     *)
 (*   "Drop"      the remote side closes the connection of slot p            *)
+(*   "StoreBan"  a ban record for IP i is in the (persistent, shared) ban    *)
+(*               store without the client's BanPeer having been called now  *)
+(*               (placed by an earlier run / another user of the store):    *)
+(*               f = 1 a ban that lapsed half an hour ago, f = 2 a ban with *)
+(*               half an hour left, f = 3 a ban with a day left; k reason   *)
+(* obs.off       the offset of the client's network-adjusted clock          *)
+(*               (ChainService.timeSource.Offset()) in whole hours: peers'  *)
+(*               version timestamps move it.  NO clause reads it: whether a *)
+(*               ban has lapsed is a matter of real time (the store records *)
+(*               an absolute expiry), so every clause below must hold       *)
+(*               whatever the offset is.                                    *)
+(* abs           the IDEAL: the set of IPs under a ban that has neither     *)
+(*               lapsed nor been lifted.  The driver only places bans that  *)
+(*               are at least half an hour away from their expiry on either *)
+(*               side, so no ban lapses while a trace runs.                 *)
 (* The driver lets every asynchronous consequence of an action finish       *)
 (* before it observes (bounded waits, >= 100x the normal latency).          *)
 (***************************************************************************)
 EXTENDS Integers, Sequences, FiniteSets
 
-AbsInit == 0
-AbsNext(a, act, o2) == a
+AbsInit == {}
+AbsNext(a, act, o2) ==
+  IF act.op \in {"Misbehave", "BanCommit"} /\ act.res = "ok" THEN a \cup {act.i}
+  ELSE IF act.op = "Version" /\ act.f # 3 /\ act.res = "dropped" THEN a \cup {act.i}
+  ELSE IF act.op = "StoreBan" /\ act.res = "ok"
+       THEN (IF act.f = 1 THEN a \ {act.i} ELSE a \cup {act.i})
+  ELSE IF act.op = "Unban" /\ act.res = "ok" THEN a \ {act.i}
+  ELSE a
 
 Banned(o, i) == i >= 1 /\ i <= Len(o.ban) /\ o.ban[i][1] = 1
 
 Slots(o) == 1..Len(o.conn)
+
+\* "a banned address": under a ban by the ideal, or reported banned by the client
+IsB(a, o, i) == i \in a \/ Banned(o, i)
 
 Viol(a, o, act, a2, o2) ==
   \* not offering witness AND compact-filter service => banned and disconnected
@@ -57,12 +81,21 @@ Viol(a, o, act, a2, o2) ==
    THEN {"MisbehavingPeerBanned"} ELSE {})
   \cup
   \* the client does not keep a connection to a banned address
-  (IF \E p \in Slots(o2) : o2.kept[p] = 1 /\ Banned(o2, o2.ad[p][1])
+  (IF \E p \in Slots(o2) : o2.kept[p] = 1 /\ IsB(a2, o2, o2.ad[p][1])
    THEN {"NoConnectionToBanned"} ELSE {})
   \cup
   \* ... nor opens one
-  (IF act.op = "Connect" /\ Banned(o, act.i) /\ Banned(o2, act.i) /\ act.res # "refused"
+  (IF act.op = "Connect" /\ IsB(a, o, act.i) /\ IsB(a2, o2, act.i) /\ act.res # "refused"
    THEN {"BannedConnectRefused"} ELSE {})
+  \cup
+  \* "reported banned by every query before the ban lapses" - the query being
+  \* ChainService.IsBanned, which every connection-acceptance site asks
+  (IF \E i \in a2 : ~Banned(o2, i)
+   THEN {"IsBannedUntilLapse"} ELSE {})
+  \cup
+  \* "and by none after it lapses or is lifted"
+  (IF \E i \in 1..Len(o2.ban) : i \notin a2 /\ Banned(o2, i)
+   THEN {"IsBannedNotAfterLapse"} ELSE {})
 
 EndViol(a, o) == {}
 =============================================================================
